@@ -524,6 +524,58 @@ func (cw *verifC14World) snapshot() map[string]any {
 	return map[string]any{"sess": sess, "topics": topics, "rows": rows, "registry": reg}
 }
 
+// whyNotQuiet names what keeps the World from being quiescent (channel lengths and atomics only).
+func (cw *verifC14World) whyNotQuiet() string {
+	w := cw.w
+	h := w.hub
+	var why []string
+	if n := len(h.routeCli) + len(h.routeSrv) + len(h.join) + len(h.unreg) + len(h.meta) + len(h.userStatus); n != 0 {
+		why = append(why, "hub_queues")
+	}
+	if len(globals.usersUpdate) != 0 {
+		why = append(why, "user_cache_queue")
+	}
+	h.topics.Range(func(k, v any) bool {
+		t := v.(*Topic)
+		a := cw.absCanon(k.(string))
+		if len(a) > 3 {
+			a = a[:3]
+		}
+		if t.isDeleted() {
+			why = append(why, "topic_deleted_in_hub:"+a)
+		} else if t.isInactive() {
+			why = append(why, "topic_paused_in_hub:"+a)
+		} else if len(t.clientMsg)+len(t.serverMsg)+len(t.meta)+len(t.reg)+len(t.unreg)+len(t.exit) != 0 {
+			why = append(why, "topic_queues:"+a)
+		}
+		return true
+	})
+	for _, vs := range w.allSess() {
+		if len(vs.s.send)+len(vs.s.detach) != 0 {
+			st := "session_queue"
+			if cs, ok := cw.byPtr[vs.s]; ok {
+				if cs.writerDone() {
+					st += ":writer_gone"
+				}
+				if atomic.LoadInt32(&cs.inDisp) == 1 {
+					st += ":reader_stuck"
+				}
+			} else {
+				st += ":probe"
+			}
+			why = append(why, st)
+		}
+	}
+	sort.Strings(why)
+	if len(why) > 6 {
+		why = why[:6]
+	}
+	if len(why) == 0 {
+		return "probe_unanswered"
+	}
+	return strings.Join(why, ",")
+}
+
 // ---------------------------------------------------------------- goroutine dump
 
 var verifC14GoHdr = regexp.MustCompile(`^goroutine (\d+) \[([^\]]+)\]:`)
@@ -709,7 +761,9 @@ func verifC14Run(t *testing.T, run int, seed int64, rounds, opsPer int, seen map
 		}
 		cw.tokens[u] = base64.StdEncoding.EncodeToString(tok)
 	}
-	clientUsers := []string{"u1", "u1", "u2", "u2", "u3"}
+	// clients 1-5 run random programs; 6 and 7 are quiet witnesses (attached to me + both groups, they only publish)
+	clientUsers := []string{"u1", "u1", "u2", "u2", "u3", "u2", "u1"}
+	const nActive = 5
 	clients := make([]*verifC14Client, len(clientUsers))
 	syncSess := func() {
 		for _, cs := range cw.sess {
@@ -800,12 +854,12 @@ func verifC14Run(t *testing.T, run int, seed int64, rounds, opsPer int, seen map
 			if tn == "me" || (strings.HasPrefix(tn, "p") && !strings.Contains(tn[1:], c.user[1:])) {
 				continue
 			}
-			if rng.Intn(3) != 0 {
+			if c.idx <= nActive && rng.Intn(3) != 0 {
 				id := cw.id()
 				setupReq(c.cur, map[string]any{"leave": map[string]any{"id": id, "topic": cw.addr(c.cur, tn)}}, id)
 			}
 		}
-		if rng.Intn(2) == 0 {
+		if c.idx > nActive || rng.Intn(2) == 0 {
 			id := cw.id()
 			setupReq(c.cur, map[string]any{"sub": map[string]any{"id": id, "topic": "me"}}, id)
 		}
@@ -845,6 +899,10 @@ func verifC14Run(t *testing.T, run int, seed int64, rounds, opsPer int, seen map
 		allowDelUser := rng.Intn(100) < 25
 		progs := make([][]verifC14Op, len(clients))
 		for i, c := range clients {
+			if c.idx > nActive {
+				progs[i] = []verifC14Op{{K: "yield"}, {K: "pub", T: []string{"g1", "g2"}[rng.Intn(2)], Nap: rng.Intn(200)}, {K: "yield"}}
+				continue
+			}
 			progs[i] = verifC14GenProgram(rng, cw, c, topics, opsPer, owner, allowDelUser && c.user == "u3")
 		}
 		// staged races: a rendezvous right before two (or three) chosen requests
@@ -853,7 +911,7 @@ func verifC14Run(t *testing.T, run int, seed int64, rounds, opsPer int, seen map
 		oc := ownerClient[g]
 		others := []int{}
 		for i := range clients {
-			if clients[i].user != owner[g] {
+			if clients[i].user != owner[g] && clients[i].idx <= nActive {
 				others = append(others, i)
 			}
 		}
@@ -916,7 +974,7 @@ func verifC14Run(t *testing.T, run int, seed int64, rounds, opsPer int, seen map
 		var victim *verifC14Sess
 		slowDelay, slowHold := 0, 0
 		if rng.Intn(100) < 35 {
-			vi := rng.Intn(len(clients))
+			vi := rng.Intn(nActive)
 			if cs := clients[vi].cur; cs != nil && cs.term() == "" {
 				victim = cs
 				slowDelay, slowHold = rng.Intn(300), 150+rng.Intn(700)
@@ -929,6 +987,26 @@ func verifC14Run(t *testing.T, run int, seed int64, rounds, opsPer int, seen map
 			}
 		}
 		// ---- go
+		// the reader of a session whose write loop is gone runs cleanUp; the harness must not hang with it
+		sweepTerminate := func(c *verifC14Client, cs *verifC14Sess) {
+			fin := make(chan struct{})
+			var gid int64
+			go func() {
+				atomic.StoreInt64(&gid, verifC14Goid())
+				cw.terminate(cs, "writer_exit")
+				close(fin)
+			}()
+			select {
+			case <-fin:
+				return
+			case <-time.After(1500 * time.Millisecond):
+			}
+			hang = true
+			parkedAll = append(parkedAll, verifC14Parked(seen)...)
+			cs.vs.dead = true
+			hungClients = append(hungClients, map[string]any{"client": c.idx, "op": "sweep:cleanUp", "sess": cs.name, "round": round,
+				"goid": atomic.LoadInt64(&gid), "clean": atomic.LoadInt32(&cs.clean), "req": "cleanup:"})
+		}
 		var chaos sync.WaitGroup
 		if victim != nil {
 			chaos.Add(1)
@@ -1026,15 +1104,15 @@ func verifC14Run(t *testing.T, run int, seed int64, rounds, opsPer int, seen map
 						}
 					}
 					if cs.writerDone() {
-						cw.terminate(cs, "writer_exit")
+						sweepTerminate(c, cs)
 					}
 				}
 			}
 		}
 		syncSess()
 		qerr := w.quiesce()
-		if qerr == nil {
-			// evictions (account deletion) may have closed more sockets while quiescing
+		for tries := 0; tries < 4; tries++ {
+			// evictions (account deletion) may have closed more sockets meanwhile: their readers run cleanUp
 			again := false
 			for _, c := range clients {
 				select {
@@ -1043,13 +1121,14 @@ func verifC14Run(t *testing.T, run int, seed int64, rounds, opsPer int, seen map
 					continue
 				}
 				if cs := c.cur; cs != nil && cs.term() == "" && cs.writerDone() {
-					cw.terminate(cs, "writer_exit")
+					sweepTerminate(c, cs)
 					again = true
 				}
 			}
-			if again {
-				qerr = w.quiesce()
+			if !again {
+				break
 			}
+			qerr = w.quiesce()
 		}
 		sn := map[string]any{"round": round, "quiesced": qerr == nil, "plan": plan}
 		if qerr == nil {
@@ -1058,6 +1137,7 @@ func verifC14Run(t *testing.T, run int, seed int64, rounds, opsPer int, seen map
 			hang = true
 			sn["st"] = map[string]any{"sess": map[string]any{}, "topics": map[string]any{}, "rows": map[string]any{}, "registry": []string{}}
 			sn["qerr"] = qerr.Error()
+			sn["why"] = cw.whyNotQuiet()
 		}
 		snaps = append(snaps, sn)
 	}
@@ -1073,7 +1153,7 @@ func verifC14Run(t *testing.T, run int, seed int64, rounds, opsPer int, seen map
 		copy(evs, cs.ev)
 		cs.mu.Unlock()
 		sort.Slice(evs, func(i, j int) bool { return evs[i]["seq"].(int64) < evs[j]["seq"].(int64) })
-		hist[cs.name] = map[string]any{"user": cs.user, "client": cs.client, "term": cs.term(), "clean": atomic.LoadInt32(&cs.clean), "ev": evs}
+		hist[cs.name] = map[string]any{"user": cs.user, "client": cs.client, "term": cs.term(), "clean": atomic.LoadInt32(&cs.clean), "ev": evs, "wdone": cs.writerDone()}
 	}
 	rec["hist"], rec["snaps"], rec["parked"], rec["hung"] = hist, snaps, parked, hungClients
 	rec["hungCleanups"] = verifHungCleanups
